@@ -313,4 +313,86 @@ example : (scrollRoundtrip 0.047).isFinite = true ∧
     |toRat (scrollRoundtrip 0.047) - toRat (0.047 : Float)| ≤ driftBound * toRat (0.047 : Float) :=
   scroll_roundtrip_err_float 0.047 (by decide +kernel) (by decide +kernel)
 
+/-! ### (3) exact equality is false -/
+
+theorem unpack_2_75 : (2.75 : Float).toModel.unpack = .finite .positive 6192449487634432 (-51) (by decide) := by
+  have : (2.75 : Float) = Float.ofBits 0x4006000000000000 := by decide +kernel
+  rw [this, FM.float_unpack_ofBits _ (by decide)]; rfl
+
+theorem unpack_2_75_pred : (Float.ofBits 0x4005FFFFFFFFFFFF).toModel.unpack =
+    .finite .positive 6192449487634431 (-51) (by decide) := by
+  rw [FM.float_unpack_ofBits _ (by decide)]; rfl
+
+/-- **sv_roundtrip_not_exact_float** — `sv = 2.75` (in the decoded range, a dyadic rational: the double is *exactly*
+`11/4`) is written as `-36.36363636363637` (`0xC0422E8BA2E8BA2F`) and comes back as `2.7499999999999996`
+(`0x4005FFFFFFFFFFFF`): **one ulp below** (`2⁻⁵¹`; relative drift `≈ 1.45 · 2⁻⁵³`, inside the bound `≈ 2 · 2⁻⁵³` of
+`sv_roundtrip_err_float`). So `svRoundtrip sv = sv` is false on IEEE doubles — this is why the harness oracle compares
+the re-decoded timelines with a tolerance. -/
+theorem sv_roundtrip_not_exact_float :
+    Scalar.le (0.1 : Float) (2.75 : Float) = true ∧ Scalar.le (2.75 : Float) (10 : Float) = true ∧
+    (2.75 : Float) = Float.ofBits 0x4006000000000000 ∧
+    beatLenWritten 2.75 = Float.ofBits 0xC0422E8BA2E8BA2F ∧
+    svRoundtrip 2.75 = Float.ofBits 0x4005FFFFFFFFFFFF ∧
+    svRoundtrip 2.75 ≠ 2.75 ∧
+    (svRoundtrip 2.75).toBits.toNat + 1 = (2.75 : Float).toBits.toNat ∧
+    toRat (2.75 : Float) - toRat (svRoundtrip 2.75) = (2 : ℚ) ^ (-51 : Int) := by
+  have hv : svRoundtrip 2.75 = Float.ofBits 0x4005FFFFFFFFFFFF := by decide +kernel
+  refine ⟨by decide +kernel, by decide +kernel, by decide +kernel, by decide +kernel, hv, by decide +kernel,
+    by decide +kernel, ?_⟩
+  rw [hv, toRat_of_unpack unpack_2_75, toRat_of_unpack unpack_2_75_pred]
+  norm_num [sgnQ]
+
+/-- drift in the other direction: `sv = 1.31` comes back one ulp **above**; `1.35` one ulp below. (Of the 991
+two-decimal values `0.10 … 10.00`, 81 move, each by exactly one ulp; of random doubles in the range about 7 %.) -/
+theorem sv_roundtrip_not_exact_up_float :
+    (1.31 : Float) = Float.ofBits 0x3FF4F5C28F5C28F6 ∧ svRoundtrip 1.31 = Float.ofBits 0x3FF4F5C28F5C28F7 ∧
+    (1.35 : Float) = Float.ofBits 0x3FF599999999999A ∧ svRoundtrip 1.35 = Float.ofBits 0x3FF5999999999999 := by
+  decide +kernel
+
+/-- **scroll_roundtrip_not_exact_float** — taiko / mania: the scroll speed `0.047` (below the slider-velocity range,
+inside `[0.01, 10]`) comes back one ulp above, `0.012` one ulp below. -/
+theorem scroll_roundtrip_not_exact_float :
+    Scalar.le (0.01 : Float) (0.047 : Float) = true ∧ Scalar.le (0.047 : Float) (10 : Float) = true ∧
+    (0.047 : Float) = Float.ofBits 0x3FA810624DD2F1AA ∧ scrollRoundtrip 0.047 = Float.ofBits 0x3FA810624DD2F1AB ∧
+    scrollRoundtrip 0.047 ≠ 0.047 ∧
+    (0.012 : Float) = Float.ofBits 0x3F889374BC6A7EFA ∧ scrollRoundtrip 0.012 = Float.ofBits 0x3F889374BC6A7EF9 ∧
+    scrollRoundtrip 0.012 ≠ 0.012 := by
+  decide +kernel
+
+/-- the two clamps differ below `0.1`: as a *slider velocity* `0.047` would be clamped up to `0.1`. -/
+example : svRoundtrip 0.047 = (0.1 : Float) := by decide +kernel
+
+/-! ### (2) does the drift stop after one round? -/
+
+/-- **the fixed-point statement** (NOT proved here): the value stored after one round trip is reproduced exactly by
+every further round trip, i.e. the encoder / decoder pair reaches a fixed point after one round. -/
+def sv_roundtrip_idempotent_float_statement : Prop :=
+  ∀ sv : Float, Scalar.le (0.1 : Float) sv = true → Scalar.le sv (10 : Float) = true →
+    svRoundtrip (svRoundtrip sv) = svRoundtrip sv
+
+/-- the same for the scroll speed. -/
+def scroll_roundtrip_idempotent_float_statement : Prop :=
+  ∀ s : Float, Scalar.le (0.01 : Float) s = true → Scalar.le s (10 : Float) = true →
+    scrollRoundtrip (scrollRoundtrip s) = scrollRoundtrip s
+
+/-- it holds on every witness of drift above: the moved value is a fixed point (kernel-evaluated). No counterexample
+is known: none among `2 · 10⁶` random doubles of `[0.1, 10]`, nor in windows of `6 · 10⁵` consecutive doubles around
+each of the critical points (powers of two, `100 / 2^k`, `1.25 · 2^k`, `√50 · 2^k`). What a proof needs is in the
+final comment of this file. -/
+theorem sv_roundtrip_idempotent_witnesses_float :
+    svRoundtrip (svRoundtrip 2.75) = svRoundtrip 2.75 ∧ svRoundtrip (svRoundtrip 1.31) = svRoundtrip 1.31 ∧
+    svRoundtrip (svRoundtrip 1.35) = svRoundtrip 1.35 ∧ svRoundtrip (svRoundtrip 0.17) = svRoundtrip 0.17 ∧
+    svRoundtrip (svRoundtrip 0.3) = svRoundtrip 0.3 ∧ svRoundtrip (svRoundtrip 0.7) = svRoundtrip 0.7 ∧
+    svRoundtrip (svRoundtrip 1.1) = svRoundtrip 1.1 ∧ svRoundtrip (svRoundtrip 5.4) = svRoundtrip 5.4 ∧
+    scrollRoundtrip (scrollRoundtrip 0.047) = scrollRoundtrip 0.047 ∧
+    scrollRoundtrip (scrollRoundtrip 0.012) = scrollRoundtrip 0.012 := by
+  decide +kernel
+
+/-- what *is* proved about the second round: it is again inside the range and inside the same bound relative to the
+first (`sv_roundtrip_within_float`, `sv_roundtrip_err_float`), hence `sv_roundtrip_twice_err_float`. -/
+theorem sv_second_round_err_float (sv : Float) (h1 : Scalar.le (0.1 : Float) sv = true)
+    (h2 : Scalar.le sv (10 : Float) = true) :
+    |toRat (svRoundtrip (svRoundtrip sv)) - toRat (svRoundtrip sv)| ≤ driftBound * toRat (svRoundtrip sv) :=
+  (sv_roundtrip_err_float _ (sv_roundtrip_within_float sv h1 h2).1 (sv_roundtrip_within_float sv h1 h2).2).2
+
 end Rosu.C02
